@@ -338,3 +338,37 @@ package queryparser
 //@   loop 2
 //@     invariant ptOK(e) && kOr(e) && maxPlaceholder >= old(maxPlaceholder) && 0 <= $i
 //@     invariant forall j idx(e.Value.(*updogv1.Query_Expression_Or_).Or.Exprs), x *updogv1.Query_Expression_Equal :: j < $i && leafOf(x, e.Value.(*updogv1.Query_Expression_Or_).Or.Exprs[j]) ==> x.Placeholder <= maxPlaceholder
+
+// ReplacePlaceholders' callback binds a leaf: a positive placeholder number n becomes the n-th value and is cleared.
+// Bnd/Unch describe one leaf relative to the state at the entry of the function the contract belongs to.
+//@ pure Bnd(x *updogv1.Query_Expression_Equal, vals []string) bool := old(x.Placeholder) > 0 && x.Placeholder == 0 && x.Value == vals[old(x.Placeholder) - 1]
+//@ pure Unch(x *updogv1.Query_Expression_Equal) bool := x.Placeholder == old(x.Placeholder) && x.Value == old(x.Value)
+//@ func [C11,C12] walk$ReplacePlaceholders$1(e, f) (result)
+//@   requires ptOK(e)
+//@   requires enough_values: forall x *updogv1.Query_Expression_Equal :: leafOf(x, e) ==> x.Placeholder <= len(values)
+//@   modifies heap updogv1.Query_Expression_Equal.Value; heap updogv1.Query_Expression_Equal.Placeholder
+//@   ensures [C11] result
+//@   ensures [C11] only_placeholder_leaves_change: forall x *updogv1.Query_Expression_Equal :: Bnd(x, values) || Unch(x)
+//@   ensures [C11] only_leaves_below_change: forall x *updogv1.Query_Expression_Equal :: !leafOf(x, e) ==> Unch(x)
+//@   ensures [C11] every_placeholder_below_is_bound: forall x *updogv1.Query_Expression_Equal :: leafOf(x, e) && old(x.Placeholder) > 0 ==> Bnd(x, values)
+//@   loop 1
+//@     invariant ptOK(e) && kAnd(e) && 0 <= $i
+//@     invariant forall x *updogv1.Query_Expression_Equal :: Bnd(x, values) || Unch(x)
+//@     invariant forall x *updogv1.Query_Expression_Equal :: !leafOf(x, e) ==> Unch(x)
+//@     invariant forall j idx(e.Value.(*updogv1.Query_Expression_And_).And.Exprs), x *updogv1.Query_Expression_Equal :: j < $i && leafOf(x, e.Value.(*updogv1.Query_Expression_And_).And.Exprs[j]) && old(x.Placeholder) > 0 ==> Bnd(x, values)
+//@   loop 2
+//@     invariant ptOK(e) && kOr(e) && 0 <= $i
+//@     invariant forall x *updogv1.Query_Expression_Equal :: Bnd(x, values) || Unch(x)
+//@     invariant forall x *updogv1.Query_Expression_Equal :: !leafOf(x, e) ==> Unch(x)
+//@     invariant forall j idx(e.Value.(*updogv1.Query_Expression_Or_).Or.Exprs), x *updogv1.Query_Expression_Equal :: j < $i && leafOf(x, e.Value.(*updogv1.Query_Expression_Or_).Or.Exprs[j]) && old(x.Placeholder) > 0 ==> Bnd(x, values)
+
+//@ func [C11,C12] ReplacePlaceholders(query, values) (q)
+//@   requires query != nil && ptOK(query.Expr)
+//@   requires enough_values: forall x *updogv1.Query_Expression_Equal :: leafOf(x, query.Expr) ==> x.Placeholder <= len(values)
+//@   ensures [C11] q != nil && fresh(q) && ptOK(q.Expr)
+//@   ensures [C11] every_leaf_is_the_copy_of_a_leaf_with_its_argument_bound: forall x *updogv1.Query_Expression_Equal :: leafOf(x, q.Expr) ==>
+//@        leafOf(x.src, query.Expr) && x.Column == x.src.Column
+//@        && (x.src.Placeholder > 0 ==> x.Placeholder == 0 && x.Value == values[x.src.Placeholder - 1])
+//@        && (x.src.Placeholder <= 0 ==> x.Placeholder == x.src.Placeholder && x.Value == x.src.Value)
+//@   ensures [C11] group_by_is_copied: len(q.GroupBy) == len(query.GroupBy) && (forall j idx(q.GroupBy) :: q.GroupBy[j] == query.GroupBy[j])
+//@        && (arr(q.GroupBy) == nil || fresh(arr(q.GroupBy)))
